@@ -220,7 +220,10 @@ def item(draw, lang):
     if k == "class":
         it = {"k": "class", "methods": draw(st.lists(function(lang, attr_ok=False), max_size=2))}
         if lang in ("py", "rs"):
-            it["consts"] = draw(st.lists(literal(lang, "any"), max_size=2))
+            # now and then a class with many UPPER_CASE attributes: that makes the CLASS a holder of constants, not the module a
+            # constants-definition module (the documented heuristic counts module-level constants)
+            many = draw(st.integers(0, 5)) == 0
+            it["consts"] = draw(st.lists(literal(lang, "any"), min_size=10 if many else 0, max_size=12 if many else 2))
         if lang != "rs":
             it["attrs"] = draw(st.lists(literal(lang, "any"), max_size=2))
         return it
